@@ -112,7 +112,7 @@ def check_case_fresh(pts, t, off):
     n = len(pts)
     if n == 2:
         L = math.hypot(pts[1][0] - pts[0][0], pts[1][1] - pts[0][1])
-        if L < 1:
+        if L < 1e-9 * M:
             return "skip"
         r = seg.tOfPoint(q)
         if not (0 <= r <= 1):
@@ -130,7 +130,7 @@ def check_case_fresh(pts, t, off):
         # t at least 1e-3 away from stationary parameters
         for k in (0, 1):
             for r_, _ in oc.deriv_roots([p[k] for p in pts])[0]:
-                if abs(r_ - F(t)) < F(1, 1000):
+                if abs(r_ - F(t)) < F(1, 10 ** 7):
                     return "skip"
         xs = [p[0] for p in pts]
         ys = [p[1] for p in pts]
@@ -196,6 +196,17 @@ def search(ctx, budget):
             L_ = math.hypot(dx, dy)
             t = float(rng.randrange(2))
             off = rng.uniform(2.0e-6 * L_, max(2.1e-6 * L_, 4e-10 * abs(o)))
+        if order == 3 and (i // 3) % 4 == 2:
+            # the point where x or y is stationary (a double root of the coordinate equation the lookup solves), or next to it
+            k = rng.randrange(2)
+            a_, b_, c_ = pts[0][k], pts[1][k], pts[2][k]
+            den = a_ - 2 * b_ + c_
+            if den != 0 and 0.02 < (a_ - b_) / den < 0.98:
+                t = (a_ - b_) / den + rng.choice([0.0, 0.0, 1e-9, -1e-9, 1e-6, -3e-5])
+        if order == 2 and (i // 3) % 8 == 6:
+            # a line shorter than one unit
+            k = rng.choice([64.0, 256.0, 1024.0])
+            pts = [(pts[0][0], pts[0][1]), (pts[0][0] + (pts[1][0] - pts[0][0]) / (k * 8), pts[0][1] + (pts[1][1] - pts[0][1]) / (k * 8))]
         inp = {"pts": pts, "t": t, "off": off}
         msg = check_case(pts, t, off)
         if msg == "skip":
